@@ -7,6 +7,10 @@
 //!   fault: none | fin | rst | ver<hexbyte> | unsol | stall | garb<hexbytes>
 //!          | slow (no fault: requests from the j-th on are answered after 80 ms)
 //!          | ccfin | ccrst (the CONTROL connection is cut while the requests are in flight)
+//!          | burstrst | burstfin: <off> rounds; in each round <n> client tasks issue <j> requests one
+//!            after the other and, <delay>*100 us after the start, the mock kills every pool
+//!            connection of node 0 -- requests are being SUBMITTED at the instant the router ends
+//!            (markers: 1 + (round*n + task)*j + k; res lists all of them)
 //!   cancel: the last <cancel> client futures are dropped 3 ms after the start (orphaned stream ids)
 //! observation (after '|'):
 //!   res=<r1>,..,<rn>   r = ok:<marker>:<padlen>:<padok> | err:<class> | hang | cancelled
@@ -164,6 +168,64 @@ async fn one_request(session: &Session, c: &Case, prepared: Option<&PreparedStat
     }
 }
 
+/// Rounds of concurrent submitters with a connection kill in the middle (fault burstrst/burstfin).
+/// Returns the outcome of every request (marker order) and the largest single-request latency.
+async fn burst_rounds(cluster: &MockCluster, session: &Arc<Session>, c: &Case, prepared: Option<&PreparedStatement>) -> (Vec<String>, u64) {
+    let (tasks, per_task, rounds) = (c.n, c.j.max(1), c.off.max(1));
+    let total = rounds * tasks * per_task;
+    // a request that was never started (its task hung or was not reached) counts as cancelled
+    let results: Arc<Mutex<Vec<(String, u64)>>> = Arc::new(Mutex::new(vec![("cancelled".to_string(), 0); total]));
+    let how = if c.fault == "burstfin" { CutKind::Fin } else { CutKind::Rst };
+    for round in 0..rounds {
+        // the pool of node 0 must be connected again before the next burst
+        let tw = Instant::now();
+        while tw.elapsed() < Duration::from_millis(BOUND_MS) {
+            let up = cluster.connections(Some(0)).iter().any(|x| x.registered.is_empty() && x.requests > 0 || x.registered.is_empty());
+            let probe = tokio::time::timeout(Duration::from_secs(5), one_request(session, c, prepared, FOLLOWUP)).await;
+            if up && matches!(&probe, Ok(r) if r.starts_with("ok:")) {
+                break;
+            }
+            tokio::time::sleep(Duration::from_millis(10)).await;
+        }
+        let mut handles = Vec::new();
+        for t in 0..tasks {
+            let s = session.clone();
+            let cc = c.clone();
+            let p = prepared.cloned();
+            let results = results.clone();
+            handles.push(tokio::spawn(async move {
+                for k in 0..per_task {
+                    let idx = (round * tasks + t) * per_task + k;
+                    results.lock().unwrap()[idx] = ("hang".to_string(), BOUND_MS + 1);
+                    let t1 = Instant::now();
+                    let r = one_request(&s, &cc, p.as_ref(), (idx + 1) as i64).await;
+                    results.lock().unwrap()[idx] = (r, t1.elapsed().as_millis() as u64);
+                }
+            }));
+        }
+        // kill while the submitters are running
+        let until = Instant::now() + Duration::from_micros(c.delay * 100);
+        while Instant::now() < until {
+            tokio::task::yield_now().await;
+        }
+        for ci in cluster.connections(Some(0)) {
+            if ci.registered.is_empty() {
+                cluster.close_connection(0, ci.conn_id, how);
+            }
+        }
+        let t0 = Instant::now();
+        for h in handles {
+            let left = Duration::from_millis(BOUND_MS).saturating_sub(t0.elapsed());
+            let abort = h.abort_handle();
+            if tokio::time::timeout(left, h).await.is_err() {
+                abort.abort();
+            }
+        }
+    }
+    let r = results.lock().unwrap();
+    (r.iter().map(|x| x.0.clone()).collect(), r.iter().map(|x| x.1).max().unwrap_or(0))
+}
+
 async fn run_case(c: Case) -> String {
     let table = TableDef::new("t", &[("m", CqlType::BigInt)], &[], &[("c", CqlType::Blob)]);
     let mut spec = ClusterSpec::uniform("c10", &[("dc1", c.nodes)], 1, 4, c.shards).with_keyspace(KeyspaceDef::simple("ks", 1).with_table(table.clone()));
@@ -235,7 +297,7 @@ async fn run_case(c: Case) -> String {
             }
             let k = st.arrivals;
             st.arrivals += 1;
-            if k < c.j || c.fault == "none" || c.fault.starts_with("cc") {
+            if k < c.j || c.fault == "none" || c.fault.starts_with("cc") || c.fault.starts_with("burst") {
                 return Some(vec![echo(&c, marker)]);
             }
             if c.fault == "slow" {
@@ -259,8 +321,15 @@ async fn run_case(c: Case) -> String {
     // ---- N requests in flight -------------------------------------------------------------
     let t0 = Instant::now();
     let t0_ns = cluster.now_ns();
+    let mut res = Vec::new();
+    let mut tmax = 0u64;
+    if c.fault.starts_with("burst") {
+        let (r, t) = burst_rounds(&cluster, &session, &c, prepared.as_ref()).await;
+        res = r;
+        tmax = t;
+    }
     let mut handles = Vec::new();
-    for i in 0..c.n {
+    for i in 0..(if c.fault.starts_with("burst") { 0 } else { c.n }) {
         let s = session.clone();
         let cc = c.clone();
         let p = prepared.clone();
@@ -278,15 +347,13 @@ async fn run_case(c: Case) -> String {
             }
         }
     }
-    let ncancel = c.cancel.min(c.n);
+    let ncancel = c.cancel.min(handles.len());
     if ncancel > 0 {
         tokio::time::sleep(Duration::from_millis(3)).await;
-        for h in handles.iter().skip(c.n - ncancel) {
+        for h in handles.iter().skip(handles.len() - ncancel) {
             h.abort();
         }
     }
-    let mut res = Vec::new();
-    let mut tmax = 0u64;
     for h in handles {
         let left = Duration::from_millis(BOUND_MS).saturating_sub(t0.elapsed());
         let abort = h.abort_handle();
@@ -362,7 +429,8 @@ async fn run_case(c: Case) -> String {
                     cn.3 = true;
                 }
                 let rid = match marker {
-                    Some(m) if !(c.prep && *opcode == op::QUERY) => m,
+                    // probes / follow-ups may be repeated: they get synthetic ids like handshake frames
+                    Some(m) if m != FOLLOWUP && !(c.prep && *opcode == op::QUERY) => m,
                     _ => {
                         let r = cn.4;
                         cn.4 -= 1;
@@ -377,6 +445,7 @@ async fn run_case(c: Case) -> String {
                 cn.2.push(format!("o{}", hex_bytes(&enc[..(*written).min(enc.len())])));
             }
             Ev::RawOut { bytes } => cn.2.push(format!("o{}", hex_bytes(bytes))),
+            Ev::RawFillOut { .. } => {}
             Ev::Stalled => cn.2.push(format!("S@{}", (e.t_ns.saturating_sub(t0_ns)) / 1_000_000)),
             Ev::Close { by } => cn.2.push(format!(
                 "{}@{}",
@@ -443,6 +512,22 @@ fn gen_cases(seed: u64, n: u64, thorough: bool) -> Vec<Case> {
             c.prep = prep;
             v.push(c);
         }
+    }
+    // (b') bursts of submitters with a kill in the middle: the submit/teardown race
+    // (measured against the router before /repo bbe7c96: ~2.6 % of such cases catch a stranded request)
+    let nburst = (n / 5).max(4);
+    for i in 0..nburst {
+        let mut c = base(&mut r);
+        c.fault = if i % 6 == 5 { "burstfin".into() } else { "burstrst".into() };
+        c.n = *r.pick(&[4usize, 8, 16, 16, 32]);
+        c.j = r.range(3, 8) as usize;
+        c.off = r.range(6, 12) as usize;
+        c.delay = r.below(8);
+        c.nodes = if r.chance(1, 5) { 2 } else { 1 };
+        c.shards = 0;
+        c.prep = r.bool();
+        c.pad = r.below(61) as usize;
+        v.push(c);
     }
     // (c) random: 1..50 in flight, any j, any fault, 1-2 nodes, with and without shards
     while (v.len() as u64) < n {
